@@ -179,3 +179,29 @@ Fixpoint prologue_ok (effs : list peff) : bool :=
   | PSkip :: r => prologue_ok r
   end.
 Definition prologue_today : list peff := [PSkip; PCheckResume; PUpdateState].
+
+(* ---- re-deriving the density table in batches ---------------------------------------------------------- *)
+(* ImportanceFlowModel.log_prob_all fills a table allocated with torch.empty: rows no batch covers keep
+   whatever the allocation held.  A batch plan is a list of (start, length) slices. *)
+Definition covered (plan : list (nat * nat)) (i : nat) : bool :=
+  existsb (fun sl => Nat.leb (fst sl) i && Nat.ltb i (fst sl + snd sl)) plan.
+Definition batch_eval {A B} (d : A) (f : A -> B) (garbage : nat -> B) (plan : list (nat * nat)) (l : list A) : list B :=
+  map (fun i => if covered plan i then f (nth i l d) else garbage i) (seq 0 (List.length l)).
+
+Inductive bplan :=
+| NoBatch                  (* one call on all rows (today) *)
+| FloorBatches (b : nat)   (* max(n // b, 1) batches of b rows *)
+| CeilBatches (b : nat).   (* ceil(n / b) batches of b rows *)
+Definition plan_of (bp : bplan) (n : nat) : list (nat * nat) :=
+  match bp with
+  | NoBatch => [(0, n)]
+  | FloorBatches b => map (fun j => (j * b, b)) (seq 0 (Nat.max (n / b) 1))
+  | CeilBatches b => map (fun j => (j * b, b)) (seq 0 ((n + b - 1) / b))
+  end.
+Definition bplan_ok (bp : bplan) : bool :=
+  match bp with
+  | NoBatch => true
+  | FloorBatches _ => false
+  | CeilBatches b => Nat.ltb 0 b
+  end.
+Definition bplan_today : bplan := NoBatch.
